@@ -93,7 +93,7 @@ fn main() {
         });
     let mut replay = None;
     let mut dump = None;
-    let mut evidence = true;
+    let mut evidence = std::env::var("VSIM_NO_EVIDENCE").is_err();
     let mut survey = false;
     let mut xexport: Option<String> = None;
     let mut ximport: Option<String> = None;
